@@ -43,6 +43,8 @@ def coq_iop(op, D, stage):
     k = op["op"]
     cv = qc(float(op.get("value", 0)))
     kern = qc_vec(stage.get("kernel") or [])
+    if k == "conv" and "kernel_nd" in op:
+        return f"(IConv{D} {nested(op['kernel_nd'])})"
     if k == "conv":
         return f"(IConv {qc_vec(op['kernel'])})"
     if k == "resize":
@@ -71,6 +73,10 @@ def coq_iop(op, D, stage):
     else:
         raise KeyError(k)
     return f"(IGrid (K:=QcF) {g} {cv} {kern})" if False else f"(IGrid {g} {cv} {kern})"
+
+
+def nested(v):
+    return coq_list([nested(x) for x in v]) if isinstance(v, list) else qc(float(v))
 
 
 def num_of(op):
@@ -162,7 +168,7 @@ def correspondence(ctx):
     return {"evaluations": nstage, "distinct_nontrivial": len({str(c) for c in cases}),
             "rule": "seeded random oriented anisotropic grids (sizes 3..6, 2-D and 3-D), ramp or random dyadic images, batches of 1 or 2 images with "
                     "per-image grids, chains of <= 3 operations among resize / downsample (no smoothing and default Gaussian) / upsample / resample "
-                    "/ crop / pad (either sign, pad value) / center crop / center pad / narrow / region_of_interest (3-D) / avg_pool / conv, run "
+                    "/ crop / pad (num and margin forms, either sign, pad value) / center crop / center pad / narrow (also on per-image grids) / region_of_interest (2-D and 3-D) / avg_pool / conv (separable 1-D and n-D kernel tensors), incl. resample with unchanged rounded shape, run "
                     "through the ImageBatch methods; after EVERY operation the grid state (float size, integer size, spacing, center, origin, cube "
                     "extent, flag), the data shape and every data value are compared with the executable model inside Coq; evaluations = stages "
                     f"compared; {skipped} chains skipped (float size within 1e-3 of an integer)",
@@ -201,9 +207,7 @@ def search(ctx, broken, corr_failures):
     return out
 
 
-KNOWN = ("C04:ImageBatch.sample:grid-count", "C04:ImageBatch.narrow:per-image-grids", "C04:core.image.region_of_interest:2d-sequence-rejected",
-         "C04:ImageBatch.avg_pool:kernel-tuple-order", "C04:core.image.conv:nd-kernel:TypeError",
-         "C04:ImageBatch.upsample:fractional-size:shape-mismatch", "C04:ImageBatch.resample:same-shape:ramp")
+KNOWN = ("C04:ImageBatch.avg_pool:kernel-tuple-order", "C04:ImageBatch.upsample:fractional-size:shape-mismatch")
 
 
 def explains(broken_item, found):
@@ -247,9 +251,8 @@ MANIFEST_ENTRY = {
             "checked by the correspondence and the implementation-side search); shape_agrees is proved for crop and resize only (other shapes are "
             "compared in the correspondence); 3-D versions of pad / center crop / pad, narrow, ROI, pooling are covered by the per-axis lemmas + "
             "correspondence, not by separate N-D theorems; Gaussian pre-smoothing enters through oracle tap values + the stencil lemma. REFUTED on the "
-            "unchanged code (faithful model, vm_compute witnesses + implementation replays): resample with unchanged rounded shape returns the data "
-            "unresampled while the spacing changes; upsample after a fractional-size downsample doubles the tensor shape while the grid restores the "
-            "original size; avg_pool with a tuple kernel reads it in opposite orders for data and grid; narrow on a batch with per-image grids gives "
-            "every image the grid of image 0; region_of_interest rejects 2-D sequences; conv rejects n-D kernels; sample(one Grid) on N>1 images "
-            "returns 1 grid. Trusted: Coq kernel, vm_compute, translator, torch kernel semantics (validated by correspondence).",
+            "code (faithful model, vm_compute witness + implementation replay, known findings): upsample after a fractional-size downsample "
+            "doubles the tensor shape while the grid restores the original size; avg_pool with a tuple kernel reads it in opposite orders for "
+            "data and grid (recorded by ok_pool_aniso). Repaired in /repo and now part of the positive statements / correspondence: same-shape "
+            "resample, narrow on per-image grids, 2-D region_of_interest, n-D conv kernels, sample(one Grid) on N>1 images. Trusted: Coq kernel, vm_compute, translator, torch kernel semantics (validated by correspondence).",
 }
